@@ -121,11 +121,21 @@ fn add_edge(us: &mut [Unit], rng: &mut Rng, from: usize, to: usize, swallow_pm: 
 fn gen_case(rng: &mut Rng, id: usize, maxunits: usize) -> Value {
     let shapes = [
         "dag", "cycle", "nested", "tails_chords", "self_use", "lib_all", "swallow", "dense", "cycle", "tails_chords", "dag", "dag",
-        "arch_cycle", "arch_cycle", "symtab", "homonym", "homonym", "lib_all",
+        "arch_cycle", "arch_cycle", "symtab", "homonym", "homonym", "lib_all", "loading", "loading",
+        "hub", "hub", "lint_dep", "lint_dep",
     ];
     let shape = shapes[rng.below(shapes.len())];
     if shape == "symtab" {
         return gen_symtab(rng, id);
+    }
+    if shape == "loading" {
+        return gen_loading(rng, id);
+    }
+    if shape == "hub" {
+        return gen_hub(rng, id);
+    }
+    if shape == "lint_dep" {
+        return gen_lint_dep(rng, id);
     }
     let nlib = if shape == "homonym" || shape == "lib_all" { 2 + rng.below(2) } else { 1 + rng.below(3) };
     let n = 2 + rng.below(maxunits.max(3) - 1);
@@ -403,6 +413,113 @@ fn gen_symtab(rng: &mut Rng, id: usize) -> Value {
     json!({"id": id, "shape": "symtab", "nlib": 1, "units": units, "files": files})
 }
 
+/// the parallel LOADING phase: many more files than workers (48-80 independent one-package files
+/// over 1-2 libraries), a fifth to a third of them with a syntax error.  `seqref` makes the runner
+/// add the one-file-at-a-time reference (every file parsed alone by VHDLParser): the diagnostics
+/// of the loaded and analysed project must be exactly that multiset.
+fn gen_loading(rng: &mut Rng, id: usize) -> Value {
+    let nfiles = 48 + rng.below(33);
+    let nlib = 1 + rng.below(2);
+    let mut files: Vec<Value> = Vec::new();
+    let mut units: Vec<Value> = Vec::new();
+    let p_err = 20 + rng.below(15);
+    for f in 0..nfiles {
+        let lib = rng.below(nlib);
+        let nconst = 1 + rng.below(4);
+        let err = if rng.chance(p_err, 100) { 1 + rng.below(5) } else { 0 };
+        let bad_line = rng.below(nconst);
+        let mut t = String::new();
+        t.push_str(if err == 2 { "package q" } else { "package q" });
+        t.push_str(&format!("{f}{}\n", if err == 2 { "" } else { " is" }));
+        for i in 0..nconst {
+            let semi = if err == 1 && i == bad_line { "" } else { ";" };
+            let val = if err == 3 && i == bad_line { format!("({i}") } else if err == 4 && i == bad_line { format!("{i} +") } else { format!("{i}") };
+            t.push_str(&format!("  constant c{i} : natural := {val}{semi}\n"));
+        }
+        t.push_str(if err == 5 { "end packag;\n" } else { "end package;\n" });
+        files.push(json!({"name": format!("f{f}.vhd"), "lib": lib, "text": t}));
+        units.push(json!({"u": f, "lib": lib, "kind": "P", "name": format!("q{f}"), "of": 0, "file": format!("f{f}.vhd"), "reqs": []}));
+    }
+    json!({"id": id, "shape": "loading", "seqref": true, "nlib": nlib, "units": units, "files": files})
+}
+
+/// contention on unit locks: a few LARGE hub packages that carry errors of several kinds (also
+/// below operators, where a second analysis of an uncleared AST would take a short cut) and many
+/// leaf packages that use all hubs; every unit must be analysed exactly once on every schedule
+fn gen_hub(rng: &mut Rng, id: usize) -> Value {
+    let nhub = 4 + rng.below(5);
+    let nleaf = 16 + rng.below(25);
+    let nfill = 120 + rng.below(120);
+    let mut files: Vec<Value> = Vec::new();
+    let mut units: Vec<Value> = Vec::new();
+    for h in 0..nhub {
+        let mut t = format!("package hub{h} is\n  function takes_slv(din : bit_vector) return boolean;\n");
+        let nerr = 1 + rng.below(4);
+        let mut err_at: Vec<usize> = (0..nerr).map(|_| rng.below(nfill)).collect();
+        err_at.sort();
+        let mut e = 0;
+        for j in 0..nfill {
+            t.push_str(&format!("  constant f{h}_{j} : integer := ({j} + 3) * 2 - {};\n", j % 7));
+            while e < err_at.len() && err_at[e] == j {
+                let line = match rng.below(5) {
+                    0 => format!("  constant bar{h}_{e} : boolean := takes_slv(true) and true;\n"),
+                    1 => format!("  constant bar{h}_{e} : integer := missing_{h}_{e} + 1;\n"),
+                    2 => format!("  constant bar{h}_{e} : boolean := takes_slv(\"00\", \"11\") or false;\n"),
+                    3 => format!("  constant bar{h}_{e} : integer := f{h}_0 + true;\n"),
+                    _ => format!("  constant bar{h}_{e} : boolean := not takes_slv(3);\n"),
+                };
+                t.push_str(&line);
+                e += 1;
+            }
+        }
+        t.push_str("end package;\n");
+        files.push(json!({"name": format!("hub{h}.vhd"), "lib": 0, "text": t}));
+        units.push(json!({"u": h, "lib": 0, "kind": "P", "name": format!("hub{h}"), "of": 0, "file": format!("hub{h}.vhd"), "reqs": []}));
+    }
+    for l in 0..nleaf {
+        let mut t = String::new();
+        let mut reqs: Vec<Value> = Vec::new();
+        let first = rng.below(nhub);
+        for i in 0..nhub {
+            let h = (first + i) % nhub;
+            t.push_str(&format!("use work.hub{h}.all;\n"));
+            reqs.push(json!({"k": "ua", "t": h, "line": i + 1}));
+        }
+        t.push_str(&format!("package leaf{l} is\n  constant x{l} : integer := f{first}_1 + {l};\nend package;\n"));
+        files.push(json!({"name": format!("leaf{l}.vhd"), "lib": 0, "text": t}));
+        units.push(json!({"u": nhub + l, "lib": 0, "kind": "P", "name": format!("leaf{l}"), "of": 0, "file": format!("leaf{l}.vhd"), "reqs": reqs}));
+    }
+    json!({"id": id, "shape": "hub", "nlib": 1, "units": units, "files": files})
+}
+
+/// lint findings in units that are reached as a DEPENDENCY: sub entities whose architecture is
+/// named by the instantiation in a top architecture (`entity l.sub(a0)`); every architecture
+/// carries an unused signal and an incomplete sensitivity list (see `render`)
+fn gen_lint_dep(rng: &mut Rng, id: usize) -> Value {
+    let nlib = 1 + rng.below(2);
+    let npairs = 10 + rng.below(15);
+    let mut us: Vec<Unit> = Vec::new();
+    let mut nfiles = 0;
+    for _ in 0..npairs {
+        let lib = rng.below(nlib);
+        let sub_e = us.len();
+        us.push(Unit { lib, kind: Kind::E, of: 0, file: nfiles, reqs: vec![] });
+        us.push(Unit { lib, kind: Kind::A, of: sub_e, file: nfiles, reqs: vec![Req { k: "of", t: sub_e }] });
+        nfiles += 1;
+        let tlib = rng.below(nlib);
+        let top_e = us.len();
+        us.push(Unit { lib: tlib, kind: Kind::E, of: 0, file: nfiles, reqs: vec![] });
+        let mut reqs = vec![Req { k: "of", t: top_e }, Req { k: "j", t: sub_e + 1 }];
+        if sub_e >= 4 && rng.chance(1, 3) {
+            // a second level: also instantiate an earlier sub by architecture
+            reqs.push(Req { k: "j", t: sub_e - 3 });
+        }
+        us.push(Unit { lib: tlib, kind: Kind::A, of: top_e, file: nfiles, reqs });
+        nfiles += 1;
+    }
+    render(rng, id, "lint_dep", nlib, &us, nfiles)
+}
+
 fn render(rng: &mut Rng, id: usize, shape: &str, nlib: usize, us: &[Unit], nfiles: usize) -> Value {
     let n = us.len();
     let libname = |from: usize, l: usize, rng: &mut Rng| -> String {
@@ -471,7 +588,11 @@ fn render(rng: &mut Rng, id: usize, shape: &str, nlib: usize, us: &[Unit], nfile
             push_req(&mut jreqs, r, lines.len());
         }
         if unit.kind == Kind::A {
+            // lint findings: an unused signal and a process that reads a signal missing from its
+            // sensitivity list
+            lines.push(format!("  signal lint_a{u}, lint_b{u}, lint_c{u}, lint_unused{u} : bit;"));
             lines.push("begin".to_string());
+            lines.push(format!("  lp{u} : process (lint_a{u}) begin lint_b{u} <= lint_a{u} and lint_c{u}; end process;"));
             for r in unit.reqs.iter().filter(|r| section(r.k) == 3) {
                 cix += 1;
                 let txt = if r.k == "i" {
@@ -592,7 +713,18 @@ fn analyse_dir(dir: &Path, toml: &str, case: &Value, verbose: bool) -> Value {
         Err(e) => return json!({"error": format!("config: {e}")}),
     }
     let mut p = Project::from_config(cfg, &mut msgs);
+    // all linters on (as the language server does): the units returned by DesignRoot::analyze
+    // decide which units are linted
+    p.enable_all_linters();
     let diags = p.analyse();
+    // hook H2: the return value of DesignRoot::analyze ("the units that were re-analyzed")
+    let analyzed: Vec<String> = p
+        .verif_root()
+        .verif_trace()
+        .analyzed
+        .into_iter()
+        .filter(|u| !u.starts_with("std|"))
+        .collect();
     let mut ds: Vec<String> = diags
         .iter()
         .filter(|d| !d.pos.source.file_name().starts_with("/repo/vhdl_libraries"))
@@ -627,12 +759,28 @@ fn analyse_dir(dir: &Path, toml: &str, case: &Value, verbose: bool) -> Value {
     }
     let mut o = json!({
         "diags": ds,
+        "analyzed": analyzed,
         "circ": circ.into_iter().collect::<Vec<_>>(),
         "nrefs": refs.len(),
         "refs_hash": format!("{h:016x}"),
     });
     if verbose {
         o["refs"] = json!(refs);
+    }
+    if case["seqref"].as_bool() == Some(true) {
+        // reference for the loading phase: every file parsed alone, one after the other
+        let parser = vhdl_lang::VHDLParser::new(vhdl_lang::VHDLStandard::default());
+        let mut seq: Vec<String> = Vec::new();
+        for f in case["files"].as_array().unwrap() {
+            let name = f["name"].as_str().unwrap();
+            let mut dd: Vec<Diagnostic> = Vec::new();
+            match parser.parse_design_file(&dir.join(name), &mut dd) {
+                Ok(_) => seq.extend(dd.iter().map(canon_diag)),
+                Err(e) => seq.push(format!("IOERROR {name} {e}")),
+            }
+        }
+        seq.sort();
+        o["seq_diags"] = json!(seq);
     }
     o
 }
